@@ -11,6 +11,8 @@ VIS = {"json": (JSON, "JSONValidator"), "cbor": (CBOR, "CBORValidator")}
 
 EPS = 2.220446049250313e-16
 
+INLINE_FREE = {"json_integer"}
+
 CONFIGS = {
     "default": lambda f: f not in ("lsp", "_build-parser"),
     "no-additional-controls": lambda f: f not in ("additional-controls", "lsp", "_build-parser"),
@@ -85,7 +87,22 @@ class Run:
         if kind == "fn":
             if name in self.scripts:
                 return self.scripts[name](self, node, args)
+            # small free helper functions of the validator's own file are interpreted (e.g. json_integer)
+            if name and "::" not in name and name in self._free() and name in INLINE_FREE:
+                fi = self._free()[name]
+                names = [inp["pat"]["n"] if "pat" in inp and inp["pat"]["k"] == "pid" else None for inp in fi.node["sig"]["inputs"]]
+                sub = Interp(env={n: a for n, a in zip(names, args) if n}, src_env=self.it.src_env, cfg=self.it.cfg, on_call=self.on_call)
+                try:
+                    return sub.block(fi.node["body"])
+                except Return as r:
+                    return r.v
         return NotImplemented
+
+    def _free(self):
+        if not hasattr(self, "_free_cache"):
+            file = VIS[self.which][0]
+            self._free_cache = {fi.name: fi for fi in self.facts.fns(file) if fi.impl_self is None and not fi.in_test}
+        return self._free_cache
 
     def run(self, fnode):
         try:
